@@ -94,6 +94,12 @@ impl InodeStore {
     pub fn inode_by_handle(&self, handle: &FileHandle) -> Option<&Inode> {
         self.by_handle.get(handle)
     }
+
+    /// Verification hook (H2): sizes of the `data`, `by_id` and `by_handle` maps.
+    #[cfg(fuse_backend_rs_verif)]
+    pub fn verif_sizes(&self) -> (usize, usize, usize) {
+        (self.data.len(), self.by_id.len(), self.by_handle.len())
+    }
 }
 
 #[cfg(test)]
